@@ -7,8 +7,6 @@ globally unique across samples (C10 generator constraint).
 import os
 import random
 
-from .engine_p import bootstrap
-
 BASES = "ACGT"
 
 
@@ -48,8 +46,7 @@ def generate(outdir, seed, n_samples=None, n_loci=None, multi_sample_bam=None, b
     bad_locus: index of a locus whose alignments (first sample) carry an MD tag whose
     reference base contradicts the SNV file -> extract_read_variants raises there.
     """
-    m = bootstrap()
-    pysam = m["pysam"]
+    import pysam
     rng = random.Random(seed)
     os.makedirs(outdir, exist_ok=True)
     n_contigs = rng.choice([1, 2, 3])
@@ -208,6 +205,8 @@ def generate(outdir, seed, n_samples=None, n_loci=None, multi_sample_bam=None, b
         "bed": bed,
         "loci": loci,
         "locus_snvs": locus_snvs,
+        "snv_alleles": {"%s:%d" % k: v for k, v in snvs.items()},
+        "ref": ref,
         "samples": samples,
         "bams": bams,
         "rg_ids": rg_ids,
